@@ -58,6 +58,16 @@ class C05(fw.Prop):
             {"kind": "op", "o": ["Const", ["VFunc", 3]]},
             {"kind": "val", "v": ["VList", [["VInt", 3, 5]], ["Int", 5]]},
             {"kind": "valsugar", "s": ["VTrue"]},
+            # D12: an order edge written the hugr-rs way (no port offsets) was skipped on load
+            {"kind": "doc", "j": {"version": "live", "nodes": [
+                {"parent": 0, "op": "DFG", "signature": {"t": "G", "input": [], "output": []}},
+                {"parent": 0, "op": "Input", "types": []}, {"parent": 0, "op": "Output", "types": []}],
+                "edges": [[[1, None], [2, None]]], "metadata": [None, {"k": [1, None]}, None], "encoder": "hugr-rs v0.15.0"}},
+            # D11: the same edge with the explicit offset hugr-py writes
+            {"kind": "doc", "j": {"version": "live", "nodes": [
+                {"parent": 0, "op": "DFG", "signature": {"t": "G", "input": [], "output": []}},
+                {"parent": 0, "op": "Input", "types": []}, {"parent": 0, "op": "Output", "types": []}],
+                "edges": [[[1, 0], [2, 0]]]}},
         ]
 
     def generate(self, rng, tier, ctx):
@@ -93,6 +103,27 @@ class C05(fw.Prop):
             cases.append({"kind": "tagsugar", "s": O.gen_tagsugar(rng)})
         for _ in range(150 * k):
             cases.append({"kind": "sop", "j": O.gen_jop(rng)})
+        import progs
+        n_docs = 0
+        for _ in range(400 * k):
+            if n_docs >= 60 * k:
+                break
+            try:
+                h = progs.run(progs.gen_program(rng)).hugr
+                j = O.foreign_doc(rng, h)
+            except Exception:
+                continue
+            if len(j["nodes"]) > 60:
+                continue
+            n_docs += 1
+            cases.append({"kind": "doc", "j": j})
+        import glob, os
+        for f in sorted(glob.glob(os.path.join(fw.REPO, "resources", "test", "*.json")) +
+                        glob.glob(os.path.join(fw.REPO, "hugr-core", "src", "hugr", "serialize", "upgrade", "testcases", "*.json"))):
+            try:
+                cases.append({"kind": "doc", "j": json.load(open(f)), "file": os.path.basename(f)})
+            except Exception:
+                pass
         return cases
 
     # ------------------------------------------------------------------ observation
@@ -227,12 +258,18 @@ class C05(fw.Prop):
             s = e["sops"].OpType.model_validate(case["j"])
             d = s.root.deserialize()
             return {"s": O.walk_sop(s), "deser": O.lit_op_obj(d, tab), "reser": O.walk_sop(d._to_serial(Node(s.root.parent)))}
+        if k == "doc":
+            return O.observe_doc(case["j"])
         raise AssertionError(k)
 
     def literal(self, case, o, ctx):
         k = case["kind"]
         if k in ("ty", "arg", "param", "sugar", "sty"):
             return gapp("KT", self.literal_t(case, o, ctx))
+        if k == "doc":
+            if o["raised"]:
+                return gapp("KD", gapp("CDoc", o["s"], "true", "(SDoc [] [] None)", "true"))
+            return gapp("KD", gapp("CDoc", o["s"], "false", o["reser"], gbool(o["ok"])))
         return gapp("KV", self.literal_v(case, o, ctx))
 
     def literal_v(self, case, o, ctx):
@@ -285,6 +322,8 @@ class C05(fw.Prop):
             return any(w in txt for w in ('"Ext"', '"Tuple"', '"Option"', '"Either"', '"Func"', '"Array"', '"List"', '"Sum", [['))
         if k == "sty":
             return '"G"' in txt or '"Opaque"' in txt
+        if k == "doc":
+            return any(a[1] is None or b[1] is None for a, b in case["j"]["edges"]) or bool(case["j"].get("metadata"))
         return True
 
     def describe(self, case, obs):
@@ -300,6 +339,9 @@ class C05(fw.Prop):
         k = case["kind"]
         key = {"ty": "t", "arg": "a", "param": "p", "sugar": "s", "sty": "j", "val": "v", "valsugar": "s", "op": "o",
                "tagsugar": "s", "sop": "j"}.get(k)
+        if k == "doc":
+            yield from shrink_doc(case)
+            return
         if key is None:
             return
         for sub in shrink_term(case[key]):
@@ -357,6 +399,19 @@ def shrink_term(t):
             if isinstance(t[i], (list, dict)):
                 for s in shrink_term(t[i]):
                     yield t[:i] + [s] + t[i + 1:]
+
+
+def shrink_doc(case):
+    """Drop an edge, drop metadata, drop the last node when nothing refers to it."""
+    j = case["j"]
+    for i in range(len(j["edges"])):
+        yield {**case, "j": {**j, "edges": j["edges"][:i] + j["edges"][i + 1:]}}
+    if j.get("metadata"):
+        yield {**case, "j": {k: v for k, v in j.items() if k != "metadata"}}
+    n = len(j["nodes"]) - 1
+    if n > 0 and all(a[0] != n and b[0] != n for a, b in j["edges"]) and all(x["parent"] != n for x in j["nodes"][:n]):
+        md = j.get("metadata")
+        yield {**case, "j": {**j, "nodes": j["nodes"][:n], **({"metadata": md[:n]} if md else {})}}
 
 
 TY_TAGS = {"Sum", "Tuple", "Option", "Either", "UnitSum", "Var", "RowVar", "USize", "Qubit", "Alias", "Func", "Opaque",
